@@ -1393,6 +1393,12 @@ impl World {
         out
     }
 
+    /// `(cursor index, count)` of the reserved-entity queue, and the event queue length.
+    pub fn verif_pending(&self) -> (u32, u32, usize) {
+        let (index, count) = self.reserved_entities.verif_state();
+        (index, count, self.event_queue.len())
+    }
+
     /// Sets the slot generation of a live entity (and the id stored in its archetype row) so that
     /// generation wrap-around becomes reachable. Returns the entity's new id.
     pub fn verif_set_entity_generation(&mut self, id: EntityId, generation: u32) -> Option<EntityId> {
